@@ -90,3 +90,75 @@ CHECKS = [
                    f"{TR}.tensor_dict._check_values_have_unique_first_dim", f"{TR}.tensor_dict._check_value_has_jacobian_shape"],
           diag_check, replay_keys=["C15.Diagonalize"]),
 ]
+
+
+# ----------------------------------------------------------------------------- Jac
+
+
+def jac_setup(cx, it, H, retain=None, chunk=None):
+    O = A.tensor_list(cx, "O", distinct=True, min_len=1, nonempty_numel=False)
+    I = A.tensor_list(cx, "I", distinct=True, min_len=0)
+    k = z3.Int("chunk")
+    kn = z3.Bool("chunk_is_none")
+    cx.assume(z3.Or(kn, k > 0))
+    chunk = V.Opt(kn, k)
+    rg = z3.Bool("retain_graph")
+    jac = it.call(H.repo.get(f"{TR}.jac.Jac"), [O, I, chunk, rg])
+    m = z3.Int("m")
+    cx.assume(m >= 1)
+    cots, cotf = A.cot_family(cx, O, m)
+    return jac, O, I, chunk, rg, m, cots, cotf
+
+
+def jac_check(H):
+    from tjv.pyvc.core import PathEnd
+
+    def ghost_obligations(cx, k, kn, rg, m, last):
+        sweeps = [e for e in cx.events if e[0] == "sweep"]
+        vmaps = [e for e in cx.events if e[0] == "vmap"]
+        tag = "last" if last else "step"
+        cx.oblige(f"C15.jac.ghost.{tag}.exactly_one_sweep", len(sweeps) == 1)
+        for e in sweeps:
+            rows = lift(e[1]["rows"])
+            cx.oblige(f"C15.jac.ghost.{tag}.rows_at_most_chunk", z3.And(rows >= 1, z3.Implies(z3.Not(kn), rows <= k), rows <= m))
+            if last:
+                cx.oblige("C15.jac.ghost.last.uses_callers_retain_flag", lift(e[1]["retain"]) == rg)
+            else:
+                cx.oblige("C15.jac.ghost.step.retains_graph", lift(e[1]["retain"]) == True)  # noqa: E712
+                cx.oblige("C15.jac.ghost.step.full_chunk", rows == k)
+            cx.oblige(f"C15.jac.ghost.{tag}.no_create_graph", e[1]["create_graph"] is False)
+        for e in vmaps:
+            cx.oblige(f"C15.jac.ghost.{tag}.vmap_only_for_several_rows", lift(e[1]["batch"]) > 1)
+            cx.oblige(f"C15.jac.ghost.{tag}.vmap_one_batched_sweep", lift(e[1]["chunk_size"]) == lift(e[1]["batch"]))
+        cx.oblige(f"C15.jac.ghost.{tag}.at_most_one_vmap", len(vmaps) <= 1)
+
+    def body(cx):
+        it = H.interp(cx, loop_specs=A.LOOPS, overrides=A.OVERRIDES)
+        jac, O, I, chunk, rg, m, cots, cotf = jac_setup(cx, it, H)
+        k, kn = chunk.value, chunk.is_none
+        try:
+            kind, out = call_catch(lambda: it.call(it.getattr(jac, "_differentiate"), [cots]))
+        except PathEnd:
+            ghost_obligations(cx, k, kn, rg, m, last=False)
+            raise
+        cx.oblige("C15.jac.no_raise", kind == "return", where=str(getattr(out, "where", "")))
+        if kind != "return":
+            return
+        nI = I.length
+        if isinstance(out, tuple):
+            cx.oblige("C15.jac.empty_inputs_give_empty_tuple", z3.And(nI == 0, len(out) == 0))
+            return
+        ghost_obligations(cx, k, kn, rg, m, last=True)
+        cx.oblige("C15.jac.one_result_per_input", lift(out.length) == nI)
+        kk, r, c = cx.fresh_int("k"), cx.fresh_int("r"), cx.fresh_int("c")
+        cx.assume(z3.And(0 <= kk, kk < nI, 0 <= r, r < m, 0 <= c, c < A.numel(I.get(kk).ref)))
+        v = out.get(kk)
+        cx.oblige("C15.jac.shape", z3.And(len(v.shape.lead) == 1, lift(v.shape.lead[0]) == m, v.shape.tail == I.get(kk).shape.tail))
+        cx.oblige("C15.jac.post", v.elem([r, c]) == A.jac_spec_row(cx, O, I, cots, r, kk, c))
+    H.explore(body)
+
+
+CHECKS.append(Check("jac", [f"{TR}.jac.Jac.__init__", f"{TR}.jac.Jac._differentiate", f"{TR}.jac._get_jac_matrix_chunk",
+                            f"{TR}.jac._extract_sub_matrices", f"{TR}.jac._reshape_matrices",
+                            f"{TR}._differentiate._Differentiate.__init__", f"{TR}._utils.ordered_set"], jac_check,
+                    replay_keys=["C15.Jac", "C07", "C13"]))
